@@ -391,6 +391,33 @@ func init() {
 		Body: routineTwo(true, []int{lCtxFresh, lCtxFreshRestart}, []int{lState1, lState0, lState2}, []int{iUntilCancelled}),
 	})
 	eng.Register(&eng.Scenario{
+		Name: "sroutine-setroutine", Props: []string{"C05", "C04"}, MustFinish: true, ObsNames: stdObs,
+		Doc:   "StateRoutineContainer with context, state 1 and a routine: T1 = SetStateRoutine(new)  ||  T2 = SetState(2) or SetContext(fresh) (choice)  ||  T3 = RestartRoutine: at quiescence exactly one live instance, with the current context and GetState()",
+		Quick: eng.Bounds{PB: 2, Delay: true}, Thorough: eng.Bounds{PB: 3, Delay: true},
+		Body: func() {
+			o := newSRC([]int{iUntilCancelled})
+			var cur, cur2 context.Context
+			doLetter(o, lCtxFresh, &cur, "init")
+			doLetter(o, lState1, &cur, "init")
+			doLetter(o, lSetRoutine, &cur, "init")
+			if vsched.Choose(2) == 1 {
+				vsched.Settle()
+			}
+			second := []int{lState2, lCtxFresh}[vsched.Choose(2)]
+			T("T1", func() { doLetter(o, lSetRoutine, &cur2, "T1") })
+			T("T2", func() { doLetter(o, second, &cur, "T2") })
+			T("T3", func() { doLetter(o, lRestart, &cur2, "T3") })
+			vsched.Settle()
+			live, _, _ := liveInstances(0)
+			if live != 1 {
+				fail("C05.two-live", "%d instances with a live context at quiescence, want exactly 1 (context, routine and state are all set)", live)
+			}
+			finalRoutineOracle(o, true)
+			o.clear()
+			vsched.Settle()
+		},
+	})
+	eng.Register(&eng.Scenario{
 		Name: "sroutine-getstate", Props: []string{"C05", "C04"}, MustFinish: true, ObsNames: stdObs,
 		Doc:   "StateRoutineContainer: T1 = SetState(1); SetState(2)  ||  T2 = GetState x3 (never goes backwards)  ||  T3 = SwapValue(+10); context set beforehand: final state is 2 or 12 and the survivor was given GetState()",
 		Quick: eng.Bounds{PB: 3, Delay: true}, Thorough: eng.Bounds{PB: 4, Delay: true},
